@@ -342,3 +342,149 @@ Proof.
   intros ps nc a b ops He s r Hr Hs Hn. destruct (reachable_inv ps nc a b ops He) as [_ Ti].
   apply (ti_tr _ Ti r Hr Hn). exact Hs.
 Qed.
+
+(* ================================================================== *)
+(* expiry and close                                                     *)
+Lemma step_eq : forall s o, h_err (H s) = 0 -> h_err (H (step0 s o)) = 0 -> step s o = step0 s o.
+Proof. intros s o E0 E1. unfold step. rewrite E0. cbn [N.eqb negb]. rewrite E1. reflexivity. Qed.
+
+(* notifying part of what is referenced never panics and gives each exactly one terminal result *)
+Lemma notify_live : forall s (l : list ((obj -> src) * (obj -> res) * slot)) rest, LI s -> h_err (H s) = 0 ->
+  Forall (fun t => terminal (snd (fst t))) l -> Permutation (live s) (map snd l ++ rest) ->
+  h_err (nseq l (H s)) = 0 /\ forall x, In x (map snd l) -> nterm (hgot (nseq l (H s)) (sr x)) = 1%nat.
+Proof.
+  intros s l rest Li He Hf Hp.
+  assert (Hok : Forall (ok_slot (H s)) (map snd l ++ rest)) by (eapply Permutation_Forall; [exact Hp | apply Li]).
+  assert (Hnd : NoDup (map sr (map snd l ++ rest))) by (eapply Permutation_NoDup; [apply Permutation_map; exact Hp | apply Li]).
+  destruct (finish_seq l rest (H s) (li_h s Li) He Hf Hok Hnd) as (_ & Hfr & _ & Hone & _).
+  split; [apply Hfr | exact Hone].
+Qed.
+
+Section Reached.
+  Variables (ps : N) (nc : bool) (pq rq0 : N) (ops : list op).
+  Hypothesis Henv : env_ok ops (init ps nc pq rq0).
+  Let s := run ops (init ps nc pq rq0).
+  Hypothesis Herr : h_err (H s) = 0.
+
+  Let Li : LI s := reachable_LI ps nc pq rq0 ops Henv.
+
+  (* proposals: the gc of the shard expires every entry whose deadline has passed *)
+  Lemma tick_expires_proposal_proved : forall kv, In kv (pend (P s)) ->
+    p_stop (P s) (fst kv mod cps s) = false ->
+    (sub64 (h_clock (H s)) (p_lastgc (P s) (fst kv mod cps s)) <? gc_tick) = false ->
+    o_dl (h_objs (H s) (so (snd kv))) < h_clock (H s) ->
+    let s' := step s (GcP (fst kv)) in
+    h_err (H s') = 0 /\ nterm (got s' (sr (snd kv))) = 1%nat.
+  Proof.
+    intros kv Hkv Hst Hgc Hdl s'.
+    destruct (gc_at_LI s (fst kv mod cps s) (h_clock (H s)) Li Herr) as (_ & Hfr & Hone).
+    assert (E : s' = gc_at s (fst kv mod cps s) (h_clock (H s))).
+    { unfold s'. apply step_eq; [exact Herr | apply Hfr]. }
+    rewrite E. split; [apply Hfr|]. apply (Hone Hst Hgc kv Hkv eq_refl Hdl).
+  Qed.
+
+  (* config change / snapshot: one pending request *)
+  Lemma x_gc_expires : forall (x : otab) sl (a b : list slot), x_pend x = Some sl -> live s = a ++ [sl] ++ b ->
+    (sub64 (h_clock (H s)) (x_lastgc x) <? gc_tick) = false ->
+    o_dl (h_objs (H s) (so sl)) < h_clock (H s) ->
+    h_err (fst (x_gc (H s) x)) = 0 /\ nterm (hgot (fst (x_gc (H s) x)) (sr sl)) = 1%nat.
+  Proof.
+    intros x sl a b Hx Hl Hgc Hdl. unfold x_gc. rewrite Hx, Hgc. apply N.ltb_lt in Hdl. rewrite Hdl. cbn [fst].
+    destruct (notify_live s [(fun o => SGc (h_clock (H s)) (o_dl o), fun _ => mkRes cTimeout 0 0, sl)] (a ++ b) Li Herr) as [E1 E2].
+    - constructor; [|constructor]. apply terminal_const. reflexivity.
+    - rewrite Hl. cbn. apply Permutation_sym. apply Permutation_middle.
+    - split; [exact E1|]. apply E2. left. reflexivity.
+  Qed.
+  Lemma tick_expires_config_change_proved : forall sl, x_pend (C s) = Some sl ->
+    (sub64 (h_clock (H s)) (x_lastgc (C s)) <? gc_tick) = false ->
+    o_dl (h_objs (H s) (so sl)) < h_clock (H s) ->
+    let s' := step s GcC in h_err (H s') = 0 /\ nterm (got s' (sr sl)) = 1%nat.
+  Proof.
+    intros sl Hx Hgc Hdl s'.
+    destruct (x_gc_expires (C s) sl (live_pend s ++ live_reads s) (olist (x_pend (S s)) ++ olist (lq_pend s)) Hx) as [E1 E2]; auto.
+    { unfold live. rewrite Hx. cbn [olist]. rewrite <- !app_assoc. reflexivity. }
+    assert (E : s' = step0 s GcC).
+    { unfold s'. apply step_eq; [exact Herr|]. cbn [step0]. destruct (x_gc (H s) (C s)). exact E1. }
+    rewrite E. cbn [step0]. unfold got. destruct (x_gc (H s) (C s)). cbn [fst H setHC] in *. auto.
+  Qed.
+  Lemma tick_expires_snapshot_proved : forall sl, x_pend (S s) = Some sl ->
+    (sub64 (h_clock (H s)) (x_lastgc (S s)) <? gc_tick) = false ->
+    o_dl (h_objs (H s) (so sl)) < h_clock (H s) ->
+    let s' := step s GcS in h_err (H s') = 0 /\ nterm (got s' (sr sl)) = 1%nat.
+  Proof.
+    intros sl Hx Hgc Hdl s'.
+    destruct (x_gc_expires (S s) sl (live_pend s ++ live_reads s ++ olist (x_pend (C s))) (olist (lq_pend s)) Hx) as [E1 E2]; auto.
+    { unfold live. rewrite Hx. cbn [olist]. rewrite <- !app_assoc. reflexivity. }
+    assert (E : s' = step0 s GcS).
+    { unfold s'. apply step_eq; [exact Herr|]. cbn [step0]. destruct (x_gc (H s) (S s)). exact E1. }
+    rewrite E. cbn [step0]. unfold got. destruct (x_gc (H s) (S s)). cbn [fst H setHS] in *. auto.
+  Qed.
+End Reached.
+
+Lemma nseq_odl : forall l h o, o_dl (h_objs (nseq l h) o) = o_dl (h_objs h o).
+Proof.
+  induction l as [|[[sc f] x] l IH]; intros h o; [reflexivity|]. cbn [nseq]. rewrite IH.
+  destruct (objs_notifyf sc f h x o) as [E|[r E]]; rewrite E; reflexivity.
+Qed.
+
+Definition r_ready (a : N) (b : (N * N) * (N * list slot)) : bool := (0 <? fst (snd b)) && (fst (snd b) <=? a).
+Definition r_scb (s : st) (a : N) (b : (N * N) * (N * list slot)) (o : obj) : src :=
+  SReadApplied a (fst (snd b)) (h_clock (H s)) (o_dl o).
+Definition r_fr (s : st) (o : obj) : res :=
+  if h_clock (H s) <? o_dl o then mkRes cCompleted 0 0 else mkRes cTimeout 0 0.
+Definition RL1 (s : st) (a : N) := flat_map (fun b => map (fun x => (r_scb s a b, r_fr s, x)) (snd (snd b))) (filter (r_ready a) (batches (R s))).
+Definition R_bs1 (s : st) (a : N) := filter (fun b => negb (r_ready a b)) (batches (R s)).
+Definition r_expired (s : st) (a : N) (x : slot) : bool := o_dl (h_objs (nseq (RL1 s a) (H s)) (so x)) <? h_clock (H s).
+Definition RL2 (s : st) (a : N) :=
+  map (fun x => (fun o : obj => SGc (h_clock (H s)) (o_dl o), fun _ : obj => mkRes cTimeout 0 0, x)) (filter (r_expired s a) (batch_slots (R_bs1 s a))).
+
+Lemma reads_applied_heap : forall s a, rd_stop (R s) = false -> batches (R s) <> [] ->
+  (sub64 (h_clock (H s)) (rd_lastgc (R s)) <? gc_tick) = false ->
+  H (reads_applied s a) = nseq (RL1 s a ++ RL2 s a) (H s).
+Proof.
+  intros s a Est Hne Hgc. unfold reads_applied. rewrite Est. cbn [orb].
+  destruct (batches (R s)) as [|b0 bs0] eqn:Eb; [contradiction|]. rewrite <- Eb. clear Eb b0 bs0 Hne.
+  rewrite Hgc. unfold reads_gc. cbn [H setHR].
+  change (fold_left _ (filter _ (batches (R s))) (H s))
+    with (fold_left (fun h b => notifyf_all (r_scb s a b) (r_fr s) h (snd (snd b))) (filter (r_ready a) (batches (R s))) (H s)).
+  rewrite fold_batches_nseq. fold (RL1 s a). rewrite nseq_app. unfold RL2. rewrite <- notifyf_all_nseq. reflexivity.
+Qed.
+
+Section ReachedReads.
+  Variables (ps : N) (nc : bool) (pq rq0 : N) (ops : list op).
+  Hypothesis Henv : env_ok ops (init ps nc pq rq0).
+  Let s := run ops (init ps nc pq rq0).
+  Hypothesis Herr : h_err (H s) = 0.
+  Let Li : LI s := reachable_LI ps nc pq rq0 ops Henv.
+
+  (* read index: applied() runs the gc, which expires every request of every batch whose
+     deadline has passed (a batch that is confirmed in the same call gets Timeout as well) *)
+  Lemma tick_expires_read_proved : forall a sl, rd_stop (R s) = false ->
+    (sub64 (h_clock (H s)) (rd_lastgc (R s)) <? gc_tick) = false ->
+    In sl (batch_slots (batches (R s))) -> o_dl (h_objs (H s) (so sl)) < h_clock (H s) ->
+    let s' := step s (ReadsApplied a) in
+    h_err (H s') = 0 /\ nterm (got s' (sr sl)) = 1%nat.
+  Proof.
+    intros a sl Est Hgc Hin Hdl s'.
+    assert (Hne : batches (R s) <> []) by (intros E; rewrite E in Hin; destruct Hin).
+    assert (Hfr : terminal (r_fr s)) by (intros o; unfold r_fr; destruct (h_clock (H s) <? o_dl o); reflexivity).
+    assert (Hp1 : Permutation (batch_slots (batches (R s))) (map snd (RL1 s a) ++ batch_slots (R_bs1 s a))).
+    { unfold RL1. rewrite map_snd_flat_triples. apply (batch_split (r_ready a)). }
+    assert (Hgoal : h_err (H (reads_applied s a)) = 0 /\ nterm (got (reads_applied s a) (sr sl)) = 1%nat).
+    { unfold got. rewrite (reads_applied_heap s a Est Hne Hgc).
+      destruct (notify_live s (RL1 s a ++ RL2 s a)
+                  ([] ++ live_pend s ++ (rq (R s) ++ taken (R s) ++ filter (fun x => negb (r_expired s a x)) (batch_slots (R_bs1 s a))) ++
+                   olist (x_pend (C s)) ++ olist (x_pend (S s)) ++ olist (lq_pend s)) Li Herr) as [E1 E2].
+      - apply Forall_app. split; [apply Forall_flat_triples; exact Hfr | apply Forall_triples; apply terminal_const; reflexivity].
+      - unfold RL2. rewrite map_app, map_snd_triples. unfold live, live_reads. rewrite Est.
+        apply (perm_mid _ (live_pend s)). apply perm_tail3.
+        etransitivity; [exact Hp1|]. rewrite <- app_assoc. apply Permutation_app_head. apply perm_filter_split.
+      - split; [exact E1|]. apply E2. unfold RL2. rewrite map_app, map_snd_triples.
+        apply (Permutation_in _ Hp1) in Hin. apply in_app_or in Hin. apply in_or_app.
+        destruct Hin as [Hin|Hin]; [left; exact Hin | right].
+        apply filter_In. split; [exact Hin|]. unfold r_expired. rewrite nseq_odl. apply N.ltb_lt. exact Hdl. }
+    destruct Hgoal as [G1 G2].
+    assert (E : s' = reads_applied s a) by (unfold s'; apply step_eq; [exact Herr | exact G1]).
+    rewrite E. auto.
+  Qed.
+End ReachedReads.
